@@ -98,6 +98,12 @@ def p_node(n, opts=None):
         return "{% component_css_dependencies %}"
     if t == "raw":
         return n["s"]
+    if t in ("block", "include"):
+        # C10: a region that a family printer turns into {% block %} / {% include %}; transparent when flat
+        bp = (opts or {}).get("block_printer")
+        if bp is not None:
+            return bp(n, opts)
+        return p_nodes(n["c"], opts)
     raise ValueError("unknown node %r" % (t,))
 
 
@@ -158,8 +164,9 @@ def build(program, rec, opts=None, name_prefix=""):
 
     for c in program["comps"]:
         visit(c)
+    overrides = opts.get("sources") or {}
     for spec in order:
-        src = template_source(spec["tpl"], opts)
+        src = overrides.get(spec["name"]) or template_source(spec["tpl"], opts)
 
         def make_gcd(spec):
             def get_context_data(self, *args, **kwargs):
@@ -230,7 +237,7 @@ def build(program, rec, opts=None, name_prefix=""):
             sys.modules[cls.__module__] = mod
         registry.register(spec["name"], cls)
         classes[spec["name"]] = cls
-    return classes, template_source(program["page"]["tpl"], opts)
+    return classes, overrides.get("page") or template_source(program["page"]["tpl"], opts)
 
 
 # ---------------------------------------------------------------------------
@@ -454,6 +461,8 @@ class Interp:
             return self.slot(n, env, owner, prov, parent)
         if t == "comp":
             return self.comp(n, env, owner, prov, parent)
+        if t in ("block", "include"):
+            return self.nodes(n["c"], env, owner, prov, parent)
         if t == "fill":
             # a fill tag reached outside fill extraction
             raise ExpectedError("fill rendered outside of a component body")
